@@ -4,7 +4,7 @@ triggers: operator, identifiers, constants).  A validation that disappears from 
 preamble byte then reaches a shift amount, an allocation size or an index unchecked."""
 import json
 import os
-from astu import reach_tagged, C, ctxt, gt_pair, eq_const, reach, reach_txt, ctext, strip, walk, txt, short, functions_by, always_throws, stmts_of
+from astu import inline_single_returns, reach_tagged, C, ctxt, gt_pair, eq_const, reach, reach_txt, ctext, strip, walk, txt, short, functions_by, always_throws, stmts_of
 from vlib.core import ob, VERIF
 import triggers
 
@@ -88,7 +88,9 @@ def inlined_guards(fn, by_pat, env=None, depth=0):
         if n.get("k") == "If" and always_throws(n.get("t")) and n.get("e") is None:
             # the branch conditions the guard sits under belong to it: `if (a && b) throw` == `if (a) { if (b) throw; .. }`
             ctx = [l for l, o in reach_tagged(fn["body"], n) if o in ("if", "else")]
-            out.append((n["c"], env, ctx))
+            # small `return expr;` helpers of the class / of this file read as their expression
+            cnd = inline_single_returns(n["c"], by_pat, fn.get("rect"), file=str(fn.get("pat", "")).rsplit(":", 1)[0])
+            out.append((cnd, env, ctx))
     walk(fn["body"], v)
     return out
 
@@ -113,6 +115,7 @@ def guard_item(c, env, ctx=()):
 
 def inventory(facts):
     fns = functions_by(facts)
+    triggers.set_helpers(fns)
     by_pat = {}
     for pat, fn in fns.items():
         by_pat[fn["pat"]] = fn
